@@ -158,8 +158,86 @@ func minLenFromFacts(g *core.Graph, info *types.Info, n *core.GNode, base ast.Ex
 			best = lb + add
 		}
 	}
+	// the length check made by a helper:  if err := checkFraming(buf); err != nil { return }  - on the err == nil side the
+	// buffer is at least as long as the helper guarantees on every one of its success returns
+	if g.Prog != nil && minLenDepth < 2 {
+		for _, fc := range g.FactsAt(n) {
+			x, isNil, isCmp := core.NilCompare(info, fc.Expr)
+			if !isCmp || isNil != fc.Truth || fc.Edge == nil || fc.Tag != nil {
+				continue
+			}
+			eo := core.ObjOf(info, x)
+			if eo == nil || !core.IsErrorType(eo.Type()) {
+				continue
+			}
+			for _, dn := range g.Nodes {
+				if dn.Kind != core.KStmt {
+					continue
+				}
+				as, isAs := dn.Ast.(*ast.AssignStmt)
+				if !isAs || len(as.Rhs) != 1 || core.ObjOf(info, as.Lhs[len(as.Lhs)-1]) != eo || !g.Dominates(dn, fc.Edge) {
+					continue
+				}
+				stale := false
+				for _, m := range g.Nodes {
+					if m.Kind == core.KStmt && m != dn && g.Dominates(dn, m) && g.Dominates(m, fc.Edge) && core.AssignsObj(info, m.Ast, eo) {
+						stale = true
+					}
+				}
+				c, isCall := core.Unparen(as.Rhs[0]).(*ast.CallExpr)
+				if stale || !isCall {
+					continue
+				}
+				fo := core.Callee(info, c)
+				if fo == nil {
+					continue
+				}
+				h := g.Prog.ByObj[fo.Origin()]
+				if h == nil || h.Body == nil {
+					continue
+				}
+				// the buffer must not be re-sliced between the call and n
+				if bo := core.ObjOf(info, base); bo != nil {
+					re := false
+					for _, m := range g.Nodes {
+						if m.Kind == core.KStmt && m != dn && g.Dominates(dn, m) && g.Dominates(m, n) && core.AssignsObj(info, m.Ast, bo) {
+							re = true
+						}
+					}
+					if re {
+						continue
+					}
+				}
+				for ai, a := range c.Args {
+					po := h.ParamObj(ai)
+					if po == nil || core.ExprStr(a) != want {
+						continue
+					}
+					hg := g.Prog.Graph(h)
+					hmin, nret := int64(-1), 0
+					minLenDepth++
+					for _, hr := range hg.Returns() {
+						if definitelyErrorReturn(hg, h, hr) {
+							continue
+						}
+						nret++
+						m := minLenFromFacts(hg, h.Pkg.TypesInfo, hr, ast.NewIdent(po.Name()))
+						if hmin < 0 || m < hmin {
+							hmin = m
+						}
+					}
+					minLenDepth--
+					if nret > 0 && hmin > best {
+						best = hmin
+					}
+				}
+			}
+		}
+	}
 	return best
 }
+
+var minLenDepth = 0
 
 // lowerBoundExpr returns a lower bound (>= 0) of the integer expression e at node n, derived from constants,
 // sums, widening conversions, len() of guarded buffers and dominating comparisons of variables with
